@@ -37,6 +37,9 @@ def run(tier: str, rep: Report):
         rep.machinery_error(f"MC_Hosts emitted nothing: {r.out[-300:]}")
     seqs = sorted({tuple(x["ops"]) for x in runs})
     terms = c07.model_terms(rep, wd, 1)
+    shapes = c07.model_shapes(rep, wd)
+    shapes = [s for i, s in enumerate(shapes) if i % (6 if tier == "quick" else 2) == 0]
+    rep.cov["document_shapes"] = len(shapes)
     if tier == "quick":
         terms = [t for k, t in enumerate(terms) if t[1][0] in ("atom", "complex") or k % 4 == 0]
     pool = Pool(hosts, per_version=2)
@@ -54,7 +57,7 @@ def run(tier: str, rep: Report):
             import c14
             srcs += [{"id": f"base:{b['id']}", "src": b["src"]} for b in api_family.bases_for(v)]
             srcs += [{"id": f"tpl:{n}", "src": s} for n, s in c14.TEMPLATES]
-            pargs[v] = [{"path": f, "files": fs, "sources": srcs, "terms": terms}]
+            pargs[v] = [{"path": f, "files": fs, "sources": srcs, "terms": terms, "shapes": shapes}]
         res = pool.map_all("jsonw.produce", pargs)
         rep.cov["documents_per_producer"] = {v: res[v][0] for v in res}
         cargs = {h: [] for h in hosts}
